@@ -93,6 +93,15 @@ class State:
 
     def hyps(self):
         """path condition plus the instances of this path's lazy universals at its index terms"""
+        key = (len(self.pc), len(self.univ), len(self.idx), self.pc[-1].get_id() if self.pc else 0)
+        cached = getattr(self, "_hyps_cache", None)
+        if cached is not None and cached[0] == key:
+            return list(cached[1])
+        out = self._hyps()
+        self._hyps_cache = (key, out)
+        return list(out)
+
+    def _hyps(self):
         out = list(self.pc)
         if not self.univ or not self.idx:
             return out
@@ -339,7 +348,44 @@ def select_store(a, i, old_ids=frozenset()):
 BELOW0 = [None]     # set by the engine: predicate "every reference element of the sequence is below ALLOC0"
 
 
-def feasible(cs, timeout=3000):
+_STRINGY = {}
+
+
+def _stringy(t):
+    """does the formula contain string-theory operations (prefix/suffix/indexof/substr/contains/concat on String)?"""
+    k = t.get_id()
+    r = _STRINGY.get(k)
+    if r is not None:
+        return r
+    res = False
+    todo, seen = [t], set()
+    while todo:
+        x = todo.pop()
+        if x.get_id() in seen:
+            continue
+        seen.add(x.get_id())
+        if z3.is_app(x):
+            if x.sort() == Str and x.num_args() > 0 and x.decl().kind() != z3.Z3_OP_DT_ACCESSOR and x.decl().kind() != z3.Z3_OP_SELECT \
+                    and x.decl().kind() != z3.Z3_OP_UNINTERPRETED and x.decl().kind() != z3.Z3_OP_ITE:
+                res = True
+                break
+            dk = x.decl().kind()
+            if dk in (z3.Z3_OP_SEQ_PREFIX, z3.Z3_OP_SEQ_SUFFIX, z3.Z3_OP_SEQ_CONTAINS, z3.Z3_OP_SEQ_INDEX) and x.arg(0).sort() == Str:
+                res = True
+                break
+            todo += x.children()
+    _STRINGY[k] = res
+    return res
+
+
+FEASIBLE_TIMEOUT_MS = int(__import__("os").environ.get("VERIF_FEASIBLE_MS", "400"))
+
+
+def feasible(cs, timeout=None):
+    """quick satisfiability test used to prune branches; `unknown` (timeout) counts as feasible: an infeasible path that is kept only
+    produces obligations that are vacuously true"""
+    timeout = timeout or FEASIBLE_TIMEOUT_MS
+    cs = [c for c in cs if not _stringy(c)]       # string reasoning is slow: dropping constraints only over-approximates feasibility
     s = z3.Solver()
     s.set("timeout", timeout)
     s.add(*cs)
